@@ -176,7 +176,7 @@ def id_of(sim, action):
 
 
 class Sim:
-    def __init__(self, scenario, oracle: Oracle | None = None, trace=False, strategy_cls=None, prebuilt=None, on_feed=None):
+    def __init__(self, scenario, oracle: Oracle | None = None, trace=False, strategy_cls=None, prebuilt=None, on_feed=None, reuse=None):
         self.scenario = scenario
         self.world = scenario["world"]
         self.program = scenario.get("program", [])
@@ -193,6 +193,7 @@ class Sim:
         self.strategy_cls = strategy_cls
         self.prebuilt = prebuilt or {}  # name -> DataFrame object to feed instead of the freshly built one (C02)
         self.on_feed = on_feed  # callable(name, frame) invoked right before a frame is handed to demeter
+        self.reuse = reuse  # an earlier Sim of the same world whose market OBJECTS are attached to this run's fresh actuator
         self.fed = {}  # name -> the frame objects actually handed to demeter ('__prices__' for the price frame)
         self.markets = {}  # name -> market object
         self.mdata = {}  # name -> my own pristine copy of what was fed (dict of python values)
@@ -228,7 +229,11 @@ class Sim:
             builder = MARKET_BUILDERS.get(mw["kind"])
             if builder is None:
                 raise HarnessError(f"no builder for market kind {mw['kind']}")
-            market = builder(self, mw)
+            if self.reuse is not None:
+                market = self.reuse.markets[mw["name"]]
+                self.mdata[mw["name"]] = self.reuse.mdata.get(mw["name"])
+            else:
+                market = builder(self, mw)
             if mw["name"] in self.prebuilt:
                 market.data = self.prebuilt[mw["name"]]
             self.fed[mw["name"]] = market.data
